@@ -165,6 +165,16 @@ func (p *parseVisitor) VisitSource(c parser.ISourceContext, pushAsset func(), is
 				if ty != machine.TypeMonetary {
 					return nil, nil, nil, LogicError(c, errors.New("wrong type: expected monetary"))
 				}
+				// The overdraft must be in the asset being sent: adding a zero amount of that
+				// asset fails at run time ("cannot add different assets") otherwise. Without it
+				// OP_TAKE_ALL withdraws in the overdraft's own asset, and `send [A *]` has no
+				// later check on the funding's asset.
+				pushAsset()
+				if err := p.PushInteger(machine.NewNumber(0)); err != nil {
+					return nil, nil, nil, LogicError(c, err)
+				}
+				p.AppendInstruction(program.OP_MONETARY_NEW)
+				p.AppendInstruction(program.OP_MONETARY_ADD)
 				p.AppendInstruction(program.OP_TAKE_ALL)
 			case *parser.SrcAccountOverdraftUnboundedContext:
 				pushAsset()
